@@ -1,5 +1,5 @@
 (* C15 -- sampling only ever appends correct rows. *)
-From XV Require Import Prelude Grid Perm Runner Flow Label GenRunner BridgeRunner Harvest HarvestFlow GenHarvest BridgeHarvest
+From XV Require Import Prelude Grid Perm Runner Flow Label GenRunner BridgeRunner Harvest HarvestFlow GenHarvest BridgeHarvest LabelFlow GenLabel BridgeLabel
      GridProofs PermProofs RunnerProofs LabelProofs HarvestProofs HarvestFlowProofs.
 Open Scope Z_scope.
 
@@ -47,8 +47,9 @@ Theorem C15_generated_add_is_append : forall (s : sst) (rows : table) (sync : bo
   sadd_flow_run gen_sadd_flow gen_ssave_flow s rows sync = sstep s (SAdd rows sync).
 Proof. intros. rewrite bridge_sadd_flow, bridge_ssave_flow. apply sadd_flow_is_sstep. Qed.
 
-Theorem C15_code_tie : gen_sadd_flow = model_sadd_flow /\ gen_ssave_flow = model_save_flow /\ gen_sload_rule = model_load_rule.
-Proof. exact (conj bridge_sadd_flow (conj bridge_ssave_flow bridge_sload_rule)). Qed.
+Theorem C15_code_tie : gen_sadd_flow = model_sadd_flow /\ gen_ssave_flow = model_save_flow /\ gen_sload_rule = model_load_rule
+  /\ gen_label_flow = model_label_flow.
+Proof. exact (conj bridge_sadd_flow (conj bridge_ssave_flow (conj bridge_sload_rule bridge_label_flow))). Qed.
 
 Example C15_example :
   let s1 := sstep (mk_sst None None) (SAdd [[1; 10]; [2; 20]] true) in
